@@ -18,8 +18,11 @@ SPEC = {
     "assumptions": ["hash/fnv, hex.EncodeToString and map semantics as transcribed (fnv1, keyText, association list keyed by (shard, key text)); "
                     "the statements of getShard / insert / retrieve, the map type and the absence of any other use of the keys are regenerated "
                     "facts (C04.gen_cache_key, gen_cache_key_use, gen_cache_calls)",
-                    "the theorems and the *-hist kinds are about the sequential Decode API (concurrent cache use is C10); the order in "
-                    "which the worker pool decodes consecutive datagrams of one exporter is observed by the redefinition cycles (K5)"],
+                    "the refinement / history theorems and the *-hist kinds are about the sequential Decode API (concurrent cache use is C10); the order in "
+                    "which the worker pool decodes consecutive datagrams of one exporter is observed by the redefinition cycles (K5) and, in the "
+                    "pipeline model, settled by k5_two_workers_counterexample (several workers: can be wrong) and one_worker_in_order / "
+                    "one_worker_latest_template (one worker: exact); the pipeline model's tie to the source is C12's (Gen.ipfixWorker canonical, "
+                    "read loop = canonicalRx); not proved: the NetFlow v9 instance of one_worker_latest_template, liveness"],
 }
 META = {
     "text": "Lean: the concrete cache (32 shard maps keyed by the hex text of addr||id, shard picked by FNV-1) refines the abstract map "
@@ -28,7 +31,17 @@ META = {
             "exporter never changes a lookup (other_exporter_no_influence, no hypothesis on ids or hashes); unknown template => no record, "
             "error (both decoder models); the decoders use exactly this lookup. For the OLD key function (the hash alone, oldCacheKey) the "
             "statement is false: hash_collision_counterexample (decide), K1; colliding_pair_separate shows the same pair in two entries of "
-            "one shard now. Correspondence: histories incl. searched colliding pairs, model vs real Decode, plus a reference-map oracle.",
+            "one shard now. At the collector (pipeline model of C12/C13: one UDP channel, N workers running the regenerated Gen.ipfixWorker, one shared "
+            "cache; every schedule is a Reach derivation): k5_two_workers_counterexample (+ _ipfix on RFC 7011 octets with the IPFIX decoder "
+            "model, k5_two_workers_not_in_order) is the kernel-checked model-level witness of finding K5 - two workers, announce / re-announce / "
+            "data from one exporter, the data is decoded before the re-announcement that arrived before it and is published with the superseded "
+            "definition (a counterexample for the code as it is); one_worker_in_order (+ _schedule, _all_decoded, _published_sequential): for every "
+            "codec, every Canonical worker program and EVERY schedule with at most one worker the decodes are a prefix of the sequential semantics "
+            "of the arrivals (arrival order, cache threaded by folding decode), by the invariant Seq over Reach (Proofs/PipelineSeq.lean); "
+            "one_worker_latest_template (IPFIX): with one worker, if the first arrivals encode a history whose data sets use the latest definition "
+            "announced before them by the same exporter (wfHistoryLatest, no cache in the premise; wfHistory_eq_latest = refinement lifted to "
+            "histories of messages), every published payload is the rendering of exactly the records read with that latest definition. "
+            "Correspondence: histories incl. searched colliding pairs, model vs real Decode, plus a reference-map oracle.",
     "ref": "DESIGN.md §6 C04, §8 K1/F26 K5",
     "note": "K1 is repaired (F26): no hypothesis about the hash is left; Ids16 (template ids < 65536) is the uint16 type of the code. "
             "Trusted: Lean kernel, model of FNV-1 / hex / map, harness.",
